@@ -159,9 +159,11 @@ BIT_STRING_encode_oer(const asn_TYPE_descriptor_t *td,
             if(trailing_zeros < sizeof(zeros)) {
                 ret = cb(zeros, trailing_zeros, app_key);
                 erval.encoded += trailing_zeros;
+                trailing_zeros = 0;
             } else {
                 ret = cb(zeros, sizeof(zeros), app_key);
                 erval.encoded += sizeof(zeros);
+                trailing_zeros -= sizeof(zeros);
             }
             if(ret < 0) ASN__ENCODE_FAILED;
         }
